@@ -103,7 +103,7 @@ class VProcess:
         self.rig.terminate(self)
 
     def join(self, timeout=None):
-        return None
+        return self.rig.join(self, timeout)
 
 
 class VContext:
@@ -435,6 +435,21 @@ class VirtRig:
             if w.proc is proc:
                 return w.state in ('run', 'put')
         return False       # never started
+
+    def join(self, proc, timeout):
+        """Process.join(): without a timeout the caller blocks until the process has exited -- and when a process that has
+        reported its outcome exits is the environment's choice.  The caller is at rest while it waits."""
+        for w in self.workers.values():
+            if w.proc is proc and w.state in ('run', 'put'):
+                if timeout is None:
+                    self.trace.append({'e': 'rest'})
+                    if w.state == 'run':
+                        if w.will_die:
+                            self.die(w)
+                            return None
+                        self.finish(w)
+                    self.exit(w)
+        return None
 
     def terminate(self, proc):
         for w in self.workers.values():
